@@ -31,6 +31,7 @@ def direct(ctx: Ctx) -> dict:
     for which in c07.GRAMMARS:
         n = len(c07.formulas(which, "quick"))
         items += [(which, i) for i in range(0, n, 1 if not ctx.quick else 2)]
+    items += [("G1pair", i) for i in range(len(pairs()))]
     results = pmap_tagged(direct_work, items, chunk=4)
     st = tr = acc = 0
     for r in results:
@@ -43,7 +44,69 @@ def direct(ctx: Ctx) -> dict:
             "summary": {"tree_constraint_pairs": st, "accepted_by_evaluator": acc}}
 
 
+def pairs() -> list:
+    """two constraints of one spec whose scores could compensate each other: a quantifier over a symbol
+    with few occurrences next to a comparison over a symbol with many, and comparisons that raise
+    when the values are COMPARED (not merely when an operand is evaluated)"""
+    from mc.refconstraint import Atom, Child, Quant, Sym
+    qs = []
+    for sel in (Sym("<c>"), Sym("<a>"), Sym("<b>"), Child(Sym("<a>"), "<c>"), Child(Sym("<b>"), "<d>")):
+        qs.append(Quant("any", "x", sel, Atom('len(str(x)) > 0', cmp=True)))
+        qs.append(Quant("exists", "<q>", sel, Atom('len(str({0})) < 9', (Sym("<q>"),), cmp=True)))
+        qs.append(Quant("all", "x", sel, Atom('len(str(x)) > 0', cmp=True)))
+    d = Sym("<d>")
+    atoms = [Atom('int({0}) > 1', (d,), cmp=True), Atom('{0} != "a"', (d,), cmp=True), Atom('str({0}) == "1"', (d,), cmp=True),
+             Atom('str({0}).isdigit()', (d,)), Atom('str({0}) < 5', (d,), cmp=True), Atom('[str({0})] >= 1', (d,), cmp=True),
+             Atom('int({0}) > 1', (Child(Sym("<a>"), "<d>"),), cmp=True)]
+    out = [(q, a) for q in qs for a in atoms] + [(a, q) for q in qs[:4] for a in atoms[:5]]
+    out += [(atoms[4], atoms[1]), (atoms[1], atoms[4]), (atoms[5], atoms[3]), (atoms[4], atoms[5])]
+    return out
+
+
 def direct_work(item):
+    if item[0] == "G1pair":
+        return direct_pair_work(item)
+    return direct_single_work(item)
+
+
+def direct_pair_work(item):
+    from fandango.evolution.evaluation import Evaluator
+    from mc.checks import c07
+    from mc.fd import build
+    from mc.refconstraint import from_snapshot, holds, text
+    from mc.refconstraint import readings as all_readings
+    f1, f2 = pairs()[item[1]]
+    ctexts = [text(f1), text(f2)]
+    out = {"constraint": " ;; ".join(ctexts), "pairs": 0, "accepted": 0, "viol": []}
+    try:
+        spec = build(c07.GRAMMARS["G1"].fan(), ctexts)
+    except Exception:
+        return out
+    ev = Evaluator(spec.grammar, spec.constraints, 1.0, 5, 1.0)
+    rs = [all_readings(f1), all_readings(f2)]
+    for snapshot in c07.trees_for("G1", "quick"):
+        tree = from_snapshot(snapshot)
+        gen = ev.evaluate_individual(tree)
+        yielded = []
+        try:
+            while True:
+                yielded.append(next(gen))
+        except StopIteration:
+            pass
+        except Exception:
+            continue
+        out["pairs"] += 1
+        if yielded:
+            out["accepted"] += 1
+            t2 = from_snapshot(snapshot)
+            failing = [ctexts[i] for i in (0, 1) if not any(holds(r, t2) for r in rs[i])]
+            if failing:
+                out["viol"].append({"kind": "evaluator_accepts_tree_violating_constraint", "grammar": "G1", "constraint": out["constraint"], "violated": failing,
+                                    "tree": str(tree), "explained_by": ["unexplained"], "sig": "direct_pair:unexplained"})
+    return out
+
+
+def direct_single_work(item):
     from fandango.evolution.evaluation import Evaluator
     from mc.checks import c07
     from mc.fd import build
